@@ -213,8 +213,10 @@ class _Proxy:
     def __setattr__(self, n, v):
         setattr(self.__dict__['_real'], n, v)
 
-def run_ssh_fake(case, khfile=None):
+def run_ssh_fake(case, khfile=None, reuse=None):
     """Run manager.connect_ssh on the case with the recording transport.  Returns (events, result code, exc name, detail).
+    reuse: a dict kept by the caller over several calls: the connect() is made on the SSHSession OBJECT of the previous call
+    with the same dict (created by the first one), i.e. one session object connected several times.
     events (raw): ('StartClient',) ('GetServerKey',) ('CallbackAsked', host class, key name) ('Auth', kind, idx, ok)
                   ('OpenSession',) ('Invoke', name) ('OpenChannel',) ('Exec',) ('SendHello',)
     CallbackAsked records what the caller's callback was called WITH: the host argument classified relative to the dialled
@@ -323,6 +325,15 @@ def run_ssh_fake(case, khfile=None):
                     except Exception: pass
                     st.update(auths=list(saved['auths']), opens=list(saved['opens']), subs=list(saved['subs'])); del ev[:]
                     sess.connect(**kw2)
+                elif reuse is not None:
+                    # ONE session object, connect() called on it again (legal after a connect that raised): every connect is
+                    # made with ITS OWN arguments against ITS OWN peer (key, verdict streams: `case` of this call)
+                    kw2 = dict(kw); dp = kw2.pop('device_params')
+                    sess = reuse.get('sess')
+                    if sess is None: sess = reuse['sess'] = RecSession(manager.make_device_handler(dp))
+                    else: sess.__class__ = RecSession                      # the recording stub of THIS call
+                    sess._device_handler.add_additional_ssh_connect_params(kw2)
+                    sess.connect(**kw2)
                 elif khfile is not None and khfile.via == 'explicit':
                     # the caller names the file: SSHSession.load_known_hosts(filename), then connect() (a NEW session object)
                     kw2 = dict(kw); dp = kw2.pop('device_params')
@@ -422,20 +433,22 @@ def real_kh_entries(case):
             'different_hostport': [('hostport', other_name)],
             'different_both': [('host', other_name), ('hostport', other_name)]}[case['kh']]
 
-def run_ssh_real(case, timeout=20, khfile=None):
+def run_ssh_real(case, timeout=20, khfile=None, reuse=None):
     """SSHSession.connect(sock=...) against an in-process paramiko server over a socketpair.
     case: verify, kh ('absent'|'host'|'hostport'|'different'|'different_hostport'|'different_both'), pin (None|'match'|'different'),
           cb (None|True|False|'only_presented'|'only_stored'|'only_random': accepts exactly the fingerprint of the server's key /
           of the other key of that type (the one 'different*' layouts store, the one pin 'different' pins) / of a key seen nowhere),
-          password (None|'right'|'wrong'), keyfile (None|'right'|'wrong'), subsystem_ok, hostkey ('ecdsa' default | 'rsa' = RSA 2048).
+          password (None|'right'|'wrong'), keyfile (None|'right'|'wrong'), subsystem_ok, hostkey ('ecdsa' default | 'rsa' = RSA 2048),
+          srvkey (pool name of the ECDSA key the server presents, default 'E1'); cb 'fp:K' accepts exactly the fingerprint of pool key K.
+    reuse: a dict kept by the caller: the connect() is made on the SSHSession object of the previous call with that dict.
     Returns dict(server=[...events seen by the server...], bytes=<octets received on the channel>, code, exc, cb_asked)."""
     import paramiko
     from ncclient.transport.ssh import SSHSession
     from ncclient.devices.default import DefaultDeviceHandler
     pool = Pool.get()
     rsa = case.get('hostkey', 'ecdsa') == 'rsa'
-    hostkey = server_rsa() if rsa else pool.host['E1']
-    other_name = 'R1' if rsa else 'E2'          # a different key of the same type
+    hostkey = server_rsa() if rsa else pool.host[case.get('srvkey', 'E1')]
+    other_name = 'R1' if rsa else 'E2'          # a different key of the same type (of E1)
     other = pool.host[other_name]
     seen, got = [], bytearray()
     lock = threading.Lock()
@@ -482,6 +495,7 @@ def run_ssh_real(case, timeout=20, khfile=None):
     home = khfile.home if khfile is not None else home_for(kh, [])
     cb_asked = []
     want = {'only_presented': colon_fp(hostkey), 'only_stored': colon_fp(other), 'only_random': colon_fp(pool.host['X9'])}
+    if isinstance(case['cb'], str) and case['cb'].startswith('fp:'): want[case['cb']] = colon_fp(pool.host[case['cb'][3:]])
     def cb(host, fp):
         cb_asked.append([host, fp])
         if case['cb'] in want: return fp == want[case['cb']]
@@ -494,7 +508,9 @@ def run_ssh_real(case, timeout=20, khfile=None):
     if case['password']: kw['password'] = 'right-pw' if case['password'] == 'right' else 'wrong-pw'
     if case['keyfile']: kw['key_filename'] = pool.keyfile['kf0' if case['keyfile'] == 'right' else 'kf1'][0]
     if khfile is not None and khfile.via == 'config': kw['ssh_config'] = khfile.config
-    sess = SSHSession(DefaultDeviceHandler())
+    sess = reuse.get('sess') if reuse is not None else None
+    if sess is None: sess = SSHSession(DefaultDeviceHandler())
+    if reuse is not None: reuse['sess'] = sess
     exc = None
     try:
         with env_home(home):
